@@ -64,6 +64,19 @@ def check_entry(case):
     compared = 0
     try:
         kw = dict(feed_temperature=t, precision=prec, permeate_temperature=perm["T"], permeate_pressure=perm["p"], calculation_type=mdl)
+        from pyvaporation.mixtures import get_partial_pressures
+        from pyvaporation.mixtures.mixture import calculate_activity_coefficients
+
+        for k in range(len(ws)):
+            for fn, nm in ((calculate_activity_coefficients, "calculate_activity_coefficients"), (get_partial_pressures, "get_partial_pressures")):
+                ga, gb = call(fn, t, mix, cw[k], mdl), call(fn, t, mix, cm[k], mdl)
+                if is_raised(ga) or is_raised(gb):
+                    continue
+                for i in (0, 1):
+                    if math.isfinite(float(ga[i])) and math.isfinite(float(gb[i])):
+                        require(relerr(ga[i], gb[i]) <= TOL + 1e-13 / min(ws[k], 1 - ws[k], xm[k], 1 - xm[k]),
+                                "%s(%s): component %d gives %r for the mass-fraction input and %r for the equivalent mole-fraction input",
+                                nm, mdl, i + 1, float(ga[i]), float(gb[i]))
         ok_points = []
         for k in range(len(ws)):
             a, e1 = _traced(pv, lambda: pv.calculate_partial_fluxes(composition=cw[k], **kw))
